@@ -1085,6 +1085,28 @@ package connect
 //@     invariant into != from ==> (forall q seq :: {mapval(into, q)} !iterated(q) ==> mapval(into, q) == old(mapval(into, q)))
 //@     assigns mapof(into), mapvals(into)
 
+// An error's metadata goes into HTTP headers or trailers without the keys that
+// describe the framing and encoding of a body (C05: they would describe the
+// wrong body; C11: every other key with all its values, in order).
+//@ macro framing(k seq) bool = k == "Content-Type" || k == "Content-Length" || k == "Content-Encoding" || k == "Transfer-Encoding" || k == "Trailer" || k == "Accept-Encoding" || k == "Connect-Content-Encoding" || k == "Connect-Accept-Encoding" || k == "Grpc-Encoding" || k == "Grpc-Accept-Encoding"
+//@ func isFramingHeader(key) res
+//@   tags C05, C11, C02
+//@   assigns nothing
+//@   ensures res == framing(key)
+//@ func mergeMetadataHeaders(into, from)
+//@   tags C05, C11, C02
+//@   requires into != nil
+//@   assigns mapof(into), mapvals(into)
+//@   ensures into != from ==> (forall k seq :: {mapdom(into, k)} mapdom(into, k) == (old(mapdom(into, k)) || (mapdom(from, k) && !framing(k)))) // label: merged_keys
+//@   ensures into != from ==> (forall k seq :: {mapval(into, k)} mapdom(from, k) && !framing(k) ==> mapval(into, k) == old(rawvals(into, k)) ++ mapval(from, k)) // label: values_appended_in_order
+//@   ensures into != from ==> (forall k seq :: {mapval(into, k)} !mapdom(from, k) || framing(k) ==> mapval(into, k) == old(mapval(into, k))) // label: framing-headers-and-other-keys-untouched
+//@   loop 1:
+//@     invariant into != from ==> (forall q seq :: {iterated(q)} iterated(q) ==> mapdom(from, q))
+//@     invariant into != from ==> (forall q seq :: {mapdom(into, q)} mapdom(into, q) == (old(mapdom(into, q)) || (iterated(q) && !framing(q))))
+//@     invariant into != from ==> (forall q seq :: {mapval(into, q)} iterated(q) && !framing(q) ==> mapval(into, q) == old(rawvals(into, q)) ++ mapval(from, q))
+//@     invariant into != from ==> (forall q seq :: {mapval(into, q)} !iterated(q) || framing(q) ==> mapval(into, q) == old(mapval(into, q)))
+//@     assigns mapof(into), mapvals(into)
+
 // header.go: the binary-header helpers (C11, C18). Encode emits the unpadded
 // form; Decode accepts the unpadded and the padded form of every byte string
 // and returns exactly the encoded bytes.
@@ -1115,8 +1137,8 @@ package connect
 //@   requires err != nil && coded(err) ==> asErr(err).meta != hdrOf(hc.responseWriter)
 //@   assigns mapof(hdrOf(hc.responseWriter)), mapvals(hdrOf(hc.responseWriter))
 //@   ensures let H := hdrOf(hc.responseWriter) in (forall t seq :: {mapval(hc.responseTrailer, t)} mapdom(hc.responseTrailer, t) ==> mapdom(H, "Trailer-" ++ t) && mapval(H, "Trailer-" ++ t) == mapval(hc.responseTrailer, t)) // label: trailers_travel_under_the_trailer_prefix
-//@   ensures let H := hdrOf(hc.responseWriter) in err != nil && coded(err) ==> (forall k seq :: {mapval(H, k)} mapdom(asErr(err).meta, k) && !(isTrailerKey(k) && mapdom(hc.responseTrailer, k[8:])) ==> mapdom(H, k) && mapval(H, k) == old(rawvals(H, k)) ++ mapval(asErr(err).meta, k)) // label: error_metadata_in_headers
-//@   ensures let H := hdrOf(hc.responseWriter) in (forall k seq :: {mapval(H, k)} !(isTrailerKey(k) && mapdom(hc.responseTrailer, k[8:])) && !(err != nil && coded(err) && mapdom(asErr(err).meta, k)) ==> mapdom(H, k) == old(mapdom(H, k)) && mapval(H, k) == old(mapval(H, k))) // label: other_headers_untouched
+//@   ensures let H := hdrOf(hc.responseWriter) in err != nil && coded(err) ==> (forall k seq :: {mapval(H, k)} mapdom(asErr(err).meta, k) && !framing(k) && !(isTrailerKey(k) && mapdom(hc.responseTrailer, k[8:])) ==> mapdom(H, k) && mapval(H, k) == old(rawvals(H, k)) ++ mapval(asErr(err).meta, k)) // label: error_metadata_in_headers
+//@   ensures let H := hdrOf(hc.responseWriter) in (forall k seq :: {mapval(H, k)} !(isTrailerKey(k) && mapdom(hc.responseTrailer, k[8:])) && !(err != nil && coded(err) && mapdom(asErr(err).meta, k) && !framing(k)) ==> mapdom(H, k) == old(mapdom(H, k)) && mapval(H, k) == old(mapval(H, k))) // label: other_headers_untouched-the-framing-headers-among-them-whatever-the-error's-metadata-holds
 //@   loop 1:
 //@     invariant forall q seq :: {iterated(q)} iterated(q) ==> mapdom(hc.responseTrailer, q)
 //@     invariant forall q seq :: {iterated(q)} iterated(q) ==> mapdom(header, "Trailer-" ++ q) && mapval(header, "Trailer-" ++ q) == mapval(hc.responseTrailer, q)
@@ -1264,8 +1286,8 @@ package connect
 //@   ensures err != nil && callres("grpcStatusFromError", 1, 1) == nil && callres("Codec.Marshal", 1, 1) == nil ==> mapval(trailer, "Grpc-Status")[0] == dec(callres("grpcStatusFromError", 1, 0).Code) && isEnc(mapval(trailer, "Grpc-Message")[0], callres("grpcStatusFromError", 1, 0).Message)   // label: status-and-percent-encoded-message
 //@   ensures err != nil && callres("grpcStatusFromError", 1, 1) == nil && callres("Codec.Marshal", 1, 1) == nil ==> mapdom(trailer, "Grpc-Status-Details-Bin") && mapval(trailer, "Grpc-Status-Details-Bin") == [b64raw(menc(protobuf, mval(callres("grpcStatusFromError", 1, 0))))]   // label: binary-status-always-sent
 //@   ensures err != nil && !(callres("grpcStatusFromError", 1, 1) == nil && callres("Codec.Marshal", 1, 1) == nil) ==> mapval(trailer, "Grpc-Status")[0] == dec(13)   // label: unencodable-error-is-internal
-//@   ensures err != nil && coded(err) && callres("grpcStatusFromError", 1, 1) == nil && callres("Codec.Marshal", 1, 1) == nil ==> (forall k seq :: {mapval(trailer, k)} mapdom(asErr(err).meta, k) && !reservedGRPC(k) ==> mapdom(trailer, k) && mapval(trailer, k) == old(rawvals(trailer, k)) ++ mapval(asErr(err).meta, k))   // label: error-metadata-appended-under-its-keys   // tags: C11
-//@   ensures forall k seq :: {mapval(trailer, k)} !reservedGRPC(k) && !(err != nil && coded(err) && mapdom(asErr(err).meta, k)) ==> mapdom(trailer, k) == old(mapdom(trailer, k)) && mapval(trailer, k) == old(mapval(trailer, k))   // label: other-trailers-untouched   // tags: C11
+//@   ensures err != nil && coded(err) && callres("grpcStatusFromError", 1, 1) == nil && callres("Codec.Marshal", 1, 1) == nil ==> (forall k seq :: {mapval(trailer, k)} mapdom(asErr(err).meta, k) && !reservedGRPC(k) && !framing(k) ==> mapdom(trailer, k) && mapval(trailer, k) == old(rawvals(trailer, k)) ++ mapval(asErr(err).meta, k))   // label: error-metadata-appended-under-its-keys   // tags: C11
+//@   ensures forall k seq :: {mapval(trailer, k)} !reservedGRPC(k) && !(err != nil && coded(err) && mapdom(asErr(err).meta, k) && !framing(k)) ==> mapdom(trailer, k) == old(mapdom(trailer, k)) && mapval(trailer, k) == old(mapval(trailer, k))   // label: other-trailers-untouched-the-framing-headers-among-them-whatever-the-error's-metadata-holds   // tags: C11, C05
 
 // protocol_grpc.go: the handler conn. Whether or not the first Send succeeds,
 // it commits the response headers (they are flushed by the deferred flush),
